@@ -18,7 +18,12 @@ struct Model {
     generic: bool,
     /// serde(default) on the subject field (field / struct-variant-field positions)
     default: bool,
+    /// a per-language type override on the subject field: it replaces the type for that one backend only, every other
+    /// backend still writes the Rust type (field / struct-variant-field / generic-argument positions)
+    lang_override: Option<&'static str>,
 }
+
+const OVERRIDES: [&str; 5] = ["kotlin(type = \"kotlin.Any\")", "swift(type = \"Int\")", "typescript(type = \"number\")", "scala(type = \"Long\")", "go(type = \"int\")"];
 
 const TRIGGERS: [&str; 9] = ["()", "u8", "u16", "u32", "U53", "OffsetDateTime", "Vec<u8>", "T", "HashMap<String, u8>"];
 const POSITIONS: [&str; 6] = ["field", "struct-variant-field", "payload", "alias", "generic-argument", "skipped-field"];
@@ -56,7 +61,8 @@ fn render(m: &Model, rng: &mut Rng) -> String {
         "skipped-field" => format!("std::marker::PhantomData<{ty}>"),
         _ => "String".to_string(),
     };
-    let dflt = if m.default { "#[serde(default)]\n    " } else { "" };
+    let dflt = format!("{}{}", if m.default { "#[serde(default)]\n    " } else { "" }, m.lang_override.map(|o| format!("#[typeshare({o})]\n    ")).unwrap_or_default());
+    let dflt = dflt.as_str();
     s.push_str(&format!("#[typeshare]\npub struct Holder{g} {{\n    pub first: i32,\n    {}pub subject: {field_ty},\n{extra_fields}}}\n\n", if m.position == "skipped-field" { "#[serde(skip)]\n    " } else if matches!(m.position, "field" | "generic-argument") { dflt } else { "" }));
     let ge = if m.generic && matches!(m.position, "struct-variant-field" | "payload") { "<T>" } else { "" };
     let sv = if m.position == "struct-variant-field" { ty.clone() } else { "bool".into() };
@@ -109,7 +115,7 @@ fn judge(case: &Case<Model>, rep: &mut Report) {
         1 => "1",
         _ => "2+",
     };
-    rep.cell(format!("{lname}|{}|{}|depth{dclass}|combined={}", m.trigger, m.position, m.combined));
+    rep.cell(format!("{lname}|{}|{}|depth{dclass}|combined={}|override={}", m.trigger, m.position, m.combined, m.lang_override.map(|o| o.split('(').next().unwrap_or("")).unwrap_or("none")));
     let sig = |helper: &str| format!("C12|{lname}|{helper}|trigger={}|position={}|depth={dclass}{}", m.trigger, m.position, if m.combined { "|combined" } else { "" });
     let mut used: BTreeSet<String> = BTreeSet::new();
     for d in &file.defs {
@@ -214,9 +220,9 @@ pub fn run(ctx: &Ctx) -> (Spec, Report) {
             }
         }
     }
-    // the grid twice: plain, then with serde(default) on the subject field
+    // the grid seven times: plain, with serde(default) on the subject field, then once per per-language type override
     let n_grid1 = grid.len();
-    let n_grid = 2 * n_grid1;
+    let n_grid = 7 * n_grid1;
     let n = n_grid + ctx.tier.pick(4000, 40_000);
     let grid_ref = &grid;
     let mut rep = run_rounds(
@@ -227,7 +233,7 @@ pub fn run(ctx: &Ctx) -> (Spec, Report) {
         |rng: &mut Rng, i| {
             let (t, p, d) = if i < n_grid { grid_ref[i % n_grid1] } else { (rng.below(TRIGGERS.len()), rng.below(POSITIONS.len()), rng.below(5)) };
             let trigger = TRIGGERS[t];
-            let m = Model { trigger, position: POSITIONS[p], depth: d, combined: i >= n_grid && rng.chance(1, 3), generic: trigger == "T", default: if i < n_grid { i >= n_grid1 } else { rng.chance(1, 4) } };
+            let m = Model { trigger, position: POSITIONS[p], depth: d, combined: i >= n_grid && rng.chance(1, 3), generic: trigger == "T", default: if i < n_grid { i >= n_grid1 && i < 2 * n_grid1 } else { rng.chance(1, 4) }, lang_override: if i < n_grid { if i >= 2 * n_grid1 { Some(OVERRIDES[i / n_grid1 - 2]) } else { None } } else if rng.chance(1, 4) { Some(*rng.pick(&OVERRIDES)) } else { None } };
             let mut r2 = Rng::new(rng.next_u64());
             let src = render(&m, &mut r2);
             let langs: Vec<(LangId, LangCfg)> = ALL_LANGS
@@ -400,7 +406,7 @@ pub fn run(ctx: &Ctx) -> (Spec, Report) {
     let _ = std::fs::remove_dir_all(&scratch);
     let spec = Spec {
         level: "exploration",
-        rule: format!("one trigger type out of {{(), u8, u16, u32, U53, OffsetDateTime, mapped Vec<u8>, generic T, HashMap<String,u8>}} at one position out of {{field, struct-variant field, payload, alias, generic argument, skipped field (PhantomData)}} under 0-3 random wrappers (all {n_grid} combinations), then random placements up to depth 4 with other triggers combined; for each backend the names it introduces are collected from the parsed output and must be defined or imported in the same file (Swift CodableVoid, Scala UByte..ULong, Go package selectors / encoding/json, Kotlin serialization imports, TS reviver/replacer pair and its key tests, every Python name via CPython ast + import under stub pydantic); {n_cli} multi-crate Swift runs of the real binary check Codable.swift and {n_py} multi-crate Python runs resolve every name of every generated file separately (the backend object is shared by the files of one run); distinct = (language, trigger, position, depth class, combined?)"),
+        rule: format!("one trigger type out of {{(), u8, u16, u32, U53, OffsetDateTime, mapped Vec<u8>, generic T, HashMap<String,u8>}} at one position out of {{field, struct-variant field, payload, alias, generic argument, skipped field (PhantomData)}} under 0-3 random wrappers, plain / with serde(default) / with a type override for one of kotlin, swift, typescript, scala, go on the subject field (all {n_grid} combinations), then random placements up to depth 4 with other triggers combined; for each backend the names it introduces are collected from the parsed output and must be defined or imported in the same file (Swift CodableVoid, Scala UByte..ULong, Go package selectors / encoding/json, Kotlin serialization imports, TS reviver/replacer pair and its key tests, every Python name via CPython ast + import under stub pydantic); {n_cli} multi-crate Swift runs of the real binary check Codable.swift and {n_py} multi-crate Python runs resolve every name of every generated file separately (the backend object is shared by the files of one run); distinct = (language, trigger, position, depth class, combined?)"),
         assumptions: vec![
             "TypeScript: the decisive form is the weak one (helpers come in pairs and test existing keys); a Date/Uint8Array type without helpers is counted, not reported, because the generated code never uses the helper names itself".into(),
         ],
